@@ -107,15 +107,21 @@ class Ctx:
         if z3.is_false(cond):
             return False
         if Ctx.relax is not None and Ctx.relax(cond):
-            if self.pos < len(self.decisions):
-                d = self.decisions[self.pos]
-            else:
-                d = True
-                self.pending.append(self.decisions[:self.pos] + [False])
-                self.decisions.append(d)
-            self.pos += 1
-            self.notes['relaxed'] = self.notes.get('relaxed', 0) + 1
+            memo = self.notes.setdefault('relax_memo', {})
+            key = cond.sexpr()
+            if key in memo:
+                return memo[key]
+            nkey = z3.simplify(z3.Not(cond)).sexpr()
+            if nkey in memo:
+                return not memo[nkey]
+            d = self._relaxed_decision()
+            memo[key] = d
             return d
+        # a condition already decided on this path (same term) keeps its decision: no solver call
+        dm = self.notes.setdefault('decided', {})
+        ck = cond.get_id()
+        if ck in dm:
+            return dm[ck][0]
         if self.pos < len(self.decisions):
             d = self.decisions[self.pos]
         else:
@@ -135,6 +141,18 @@ class Ctx:
         c = cond if d else z3.Not(cond)
         self.pc.append(c)
         self.solver.add(c)
+        dm[ck] = (d, cond)      # keep the term alive so that its id stays unique
+        return d
+
+    def _relaxed_decision(self):
+        if self.pos < len(self.decisions):
+            d = self.decisions[self.pos]
+        else:
+            d = True
+            self.pending.append(self.decisions[:self.pos] + [False])
+            self.decisions.append(d)
+        self.pos += 1
+        self.notes['relaxed'] = self.notes.get('relaxed', 0) + 1
         return d
 
     def choose(self, n, label='choice'):
